@@ -23,6 +23,18 @@ func main() {
 		os.Exit(cmdSelftest(os.Args[2:]))
 	case "replay":
 		os.Exit(cmdReplay(os.Args[2:]))
+	case "dyn":
+		// developer command: run one dynamic driver (test name) against the tree
+		repo := "/repo"
+		if len(os.Args) > 3 {
+			repo = os.Args[3]
+		}
+		e := &Engine{}
+		r := e.runDynTest(os.Args[2], false, checkOpts{repo: repo, verif: "/verif"})
+		fmt.Println(r.Output)
+		if r.Confirmed {
+			os.Exit(1)
+		}
 	default:
 		fmt.Fprintln(os.Stderr, "unknown command")
 		os.Exit(2)
